@@ -22,17 +22,29 @@ use std::sync::Arc;
 /// What the user means by "that lint": kind, message, suggestions, priority, the flagged
 /// text, and the texts of the tokens within two characters before and after it.
 #[derive(Clone, Debug, PartialEq, Eq, PartialOrd, Ord)]
-struct Identity {
-    kind: String,
-    message: String,
-    suggestions: String,
-    priority: u8,
-    flagged: String,
-    before: Vec<String>,
-    after: Vec<String>,
+pub struct Identity {
+    pub kind: String,
+    pub message: String,
+    pub suggestions: String,
+    pub priority: u8,
+    pub flagged: String,
+    pub before: Vec<String>,
+    pub after: Vec<String>,
 }
 
-fn identity(l: &Lint, doc: &Document) -> Identity {
+fn fat_view(l: &Lint, doc: &Document) -> String {
+    use harper_core::Span;
+    let n = doc.get_source().len();
+    let (s, e) = (l.span.start.min(n), l.span.end.min(n));
+    format!(
+        "{:?} | {:?} | {:?}",
+        doc.fat_tokens_intersecting(Span::new(s.saturating_sub(2), s)),
+        doc.fat_tokens_intersecting(Span::new(s, e)),
+        doc.fat_tokens_intersecting(Span::new(e, (e + 2).min(n)))
+    )
+}
+
+pub fn identity(l: &Lint, doc: &Document) -> Identity {
     let src = doc.get_source();
     let toks = |a: usize, b: usize| -> Vec<String> {
         if a >= b {
@@ -58,6 +70,8 @@ fn identity(l: &Lint, doc: &Document) -> Identity {
 
 #[derive(Clone, Debug)]
 struct Tracked {
+    /// harper's own view of the neighbourhood when the lint was ignored (for diagnosis)
+    fat: String,
     id: Identity,
     /// where that lint is now (None once an edit touched its neighbourhood)
     span: Option<(usize, usize)>,
@@ -172,6 +186,9 @@ fn check_ignore_semantics(
         if let Some(l) = actual.iter().find(|l| l.span.start == s && l.span.end == e && identity(l, doc) == t.id) {
             res.count("c14_checked_hidden", 1);
             let in_ref = reference.iter().any(|r| r.span == l.span && r.message == l.message);
+            if DEBUG.load(std::sync::atomic::Ordering::Relaxed) {
+                eprintln!("C14 debug: at ignore time: {}\nC14 debug: now:            {}", t.fat, fat_view(l, doc));
+            }
             viol(
                 res,
                 "C14",
@@ -256,6 +273,7 @@ fn run_core(job: &Job, res: &mut RunResult) {
     let mut script: Vec<String> = vec![format!("text {:?}", text.iter().collect::<String>())];
     let mut sig = fnv1a(text.iter().collect::<String>().as_bytes());
     for step in 0..nops {
+        crumb(format!("lint({:?})", text.iter().collect::<String>()));
         let doc = Document::new_from_vec(Arc::new(text.clone()), &parser, &dict);
         let mut fresh = LintGroup::new_curated(dict.clone(), Dialect::American);
         let reference = fresh.lint(&doc);
@@ -272,7 +290,7 @@ fn run_core(job: &Job, res: &mut RunResult) {
             0..=2 if !actual.is_empty() => {
                 let l = rng.pick(&actual).clone();
                 ignored.ignore_lint(&l, &doc);
-                tracked.push(Tracked { id: identity(&l, &doc), span: Some((l.span.start, l.span.end)), markdown });
+                tracked.push(Tracked { fat: fat_view(&l, &doc), id: identity(&l, &doc), span: Some((l.span.start, l.span.end)), markdown });
                 script.push(format!("ignore {:?} '{}'", l.span, l.message));
                 res.count("c14_ignores", 1);
                 // idempotent
@@ -378,6 +396,7 @@ fn run_wasm(job: &Job, res: &mut RunResult) {
     let mut sig = fnv1a(text.iter().collect::<String>().as_bytes());
     for step in 0..nops {
         let s: String = text.iter().collect();
+        crumb(format!("lint({:?}, {})", s, if markdown { "Markdown" } else { "Plain" }));
         let actual_w = long.lint(s.clone(), lang(markdown));
         res.count("evaluations", 1);
         let actual = inner_lints(&actual_w);
@@ -471,7 +490,7 @@ fn run_wasm(job: &Job, res: &mut RunResult) {
                 let doc = Document::new_from_vec(Arc::new(text.clone()), &parser_for(markdown), &dict);
                 let id = identity(&actual[k], &doc);
                 long.ignore_lint(s.clone(), l);
-                m.tracked.push(Tracked { id: id.clone(), span: Some((actual[k].span.start, actual[k].span.end)), markdown });
+                m.tracked.push(Tracked { fat: fat_view(&actual[k], &doc), id: id.clone(), span: Some((actual[k].span.start, actual[k].span.end)), markdown });
                 script.push(format!("ignore_lint #{k} '{}'", actual[k].message));
                 res.count("c14_ignores", 1);
                 let after_w = long.lint(s.clone(), lang(markdown));
@@ -598,10 +617,10 @@ fn run_wasm(job: &Job, res: &mut RunResult) {
                     }
                 }
                 let exported = long.export_words();
-                let lower = |w: &str| w.to_lowercase();
                 for w in &m.words {
-                    if !exported.contains(w) && !exported.iter().any(|x| lower(x) == lower(w)) {
-                        viol(res, prop, "export_words", "word_not_exported", format!("{what}: imported word '{w}' is missing from export_words() = {exported:?}"), json!({}));
+                    if !exported.contains(w) {
+                        let class = if has_variant_pair(&m.words) && exported.iter().any(|x| norm(x) == norm(w)) { "case_variant_words" } else { "word_not_exported" };
+                        viol(res, prop, "export_words", class, format!("{what}: imported word '{w}' is missing from export_words() = {exported:?}"), json!({}));
                     }
                 }
             }
@@ -743,11 +762,48 @@ fn run_wasm(job: &Job, res: &mut RunResult) {
     res.sample = Some(json!({"engine":"api-sim","target":"wasm","script":script}));
 }
 
+static DEBUG: std::sync::atomic::AtomicBool = std::sync::atomic::AtomicBool::new(false);
+
+thread_local! {
+    /// What the API was last asked to do (for reports about a panic inside the library).
+    static BREADCRUMB: std::cell::RefCell<String> = const { std::cell::RefCell::new(String::new()) };
+}
+
+fn crumb(s: String) {
+    BREADCRUMB.with(|b| *b.borrow_mut() = s);
+}
+
 pub fn run(job: &Job) -> RunResult {
     let mut res = RunResult::new(job);
-    match job.params.get("target").and_then(|v| v.as_str()).unwrap_or("wasm") {
+    let target = job.params.get("target").and_then(|v| v.as_str()).unwrap_or("wasm").to_string();
+    DEBUG.store(job.params.get("debug").and_then(|v| v.as_bool()).unwrap_or(false), std::sync::atomic::Ordering::Relaxed);
+    let r = std::panic::catch_unwind(std::panic::AssertUnwindSafe(|| match target.as_str() {
         "core" => run_core(job, &mut res),
         _ => run_wasm(job, &mut res),
+    }));
+    if let Err(p) = r {
+        // a panic inside Harper while serving an API call
+        let msg = p.downcast_ref::<&str>().map(|s| s.to_string()).or_else(|| p.downcast_ref::<String>().cloned()).unwrap_or_else(|| "panic".into());
+        let loc = crate::exec::LAST_PANIC_LOCATION.lock().map(|l| l.clone()).unwrap_or_default();
+        let loc = loc.strip_prefix("/repo/").unwrap_or(&loc).to_string();
+        let what = BREADCRUMB.with(|b| b.borrow().clone());
+        if !loc.starts_with("harper-") {
+            res.harness(format!("harness panic at {loc}: {msg}"));
+        } else if job.prop == "C16" {
+            viol(
+                &mut res,
+                "C16",
+                "call_returns",
+                "api_panic",
+                format!("a call on the JS-facing linter panicked at {loc}: {msg}; last call: {what}"),
+                json!({"location": loc}),
+            );
+        } else {
+            // not this property's business (C14 is about what lint returns, C10 about side effects):
+            // the history ends here
+            res.count("history_cut_by_library_panic", 1);
+            eprintln!("note: library panic at {loc}: {msg}; last call: {what}");
+        }
     }
     res.steps = res.counters.get("evaluations").copied().unwrap_or(0);
     if job.prop == "C10" {
